@@ -121,4 +121,4 @@ class IntervalRange(MetaHandlerGenerator):
 
     def validate(self, v) -> bool:
         length = v[1] - v[0]
-        return self.minimum_length < length <= self.maximum_length and v[1] < self.maximum_top_limit
+        return self.minimum_length <= length <= self.maximum_length and v[1] <= self.maximum_top_limit
